@@ -12,7 +12,7 @@ from pv.runner import Res
 
 ID = "C19"
 HYPOTHESIS_DIRECT = False
-RULE = ("plans of 0-150 steps over names with letters, digits, '-' and '_', rendered as Metric-FF logs (real FF header "
+RULE = ("plans of 0-150 steps (and, 1 in 19, of 151-1200 / 5000 steps: texts beyond the usual buffer sizes) over names with letters, digits, '-' and '_', rendered as Metric-FF logs (real FF header "
         "lines, varied indentation / step-number width, trailers: blank lines, 'plan cost: ..', 'time spent: ..', "
         "word-only lines; LF and CRLF) and as ENHSP plans (one '(name args)' per line, mixed case); logs without a plan "
         "carrying one of the three no-solution markers or none.  Non-trivial = >= 11 steps (two number widths) or a "
@@ -177,8 +177,10 @@ def gen_name(ch):
 
 
 def gen_plan(ch, maxlen):
-    k = ch.weighted([(3, "short"), (3, "mid"), (2, "long"), (1, "empty")])
-    n = {"short": ch.int(1, 9), "mid": ch.int(10, 30), "long": ch.int(31, maxlen), "empty": 0}[k]
+    k = ch.weighted([(6, "short"), (6, "mid"), (4, "long"), (2, "empty"), (1, "huge")])
+    # "huge": texts beyond the usual I/O buffer sizes (4 KiB, 8 KiB, 64 KiB)
+    n = {"short": ch.int(1, 9), "mid": ch.int(10, 30), "long": ch.int(31, 150), "empty": 0,
+         "huge": ch.int(151, maxlen)}[k]
     names = [gen_name(ch) for _ in range(ch.int(1, 4))]
     objs = [gen_name(ch) for _ in range(ch.int(1, 6))]
     return [[ch.choice(names)] + [ch.choice(objs) for _ in range(ch.int(0, 4))] for _ in range(n)]
@@ -187,9 +189,9 @@ def gen_plan(ch, maxlen):
 def gen(ch, tier):
     fmt = ch.weighted([(4, "ff"), (1, "enhsp")])
     if fmt == "enhsp":
-        return {"format": "enhsp", "plan": gen_plan(ch, 150), "eol": ch.choice(["\n", "\n", "\r\n"]), "phase": ch.int(0, 1)}
+        return {"format": "enhsp", "plan": gen_plan(ch, 1200 if tier == "quick" else 5000), "eol": ch.choice(["\n", "\n", "\r\n"]), "phase": ch.int(0, 1)}
     status = ch.weighted([(6, "plan"), (1, "none")] + [(1, m) for m in NO_SOLUTION])
-    plan = gen_plan(ch, 150) if status == "plan" else []
+    plan = gen_plan(ch, 1200 if tier == "quick" else 5000) if status == "plan" else []
     width = max(ch.int(1, 5), len(str(max(len(plan) - 1, 0))))
     return {"format": "ff", "plan": plan, "status": status,
             "header": [ch.choice(HEADERS) for _ in range(ch.int(0, 8))],
